@@ -159,7 +159,7 @@ func (pr *Program) Run() (o Outcome, unspec *Unspecified) {
 		}
 	}()
 	m.globals = &env{vars: map[string]ref{}}
-	sig := m.block(m.globals, pr.Main, false)
+	sig := m.block(m.globals, append(append([]Stmt{}, pr.Pre...), pr.Main...), false)
 	if sig != nil {
 		if _, ok := sig.(retSig); !ok {
 			panic("cdm: break/continue escaped main")
@@ -1099,7 +1099,7 @@ func (pr *Program) FinalValue(name string) (v Value, ok bool) {
 		}
 	}()
 	m.globals = &env{vars: map[string]ref{}}
-	m.block(m.globals, pr.Main, false)
+	m.block(m.globals, append(append([]Stmt{}, pr.Pre...), pr.Main...), false)
 	r, found := m.globals.vars[name]
 	if !found {
 		return nil, false
